@@ -1,6 +1,7 @@
 package main
 
 import (
+	"sort"
 	stdx509 "crypto/x509"
 	"fmt"
 	"net"
@@ -150,6 +151,49 @@ func init() {
 				p[i] = n - 1 - i
 			}
 			return p
+		}
+		// the zoo's multi-name certificates (lists of up to 257 names, related names, names under odd TLDs) in reversed,
+		// rotated, sorted and random order
+		{
+			rotate := func(n int) []int {
+				p := make([]int, n)
+				for i := range p {
+					p[i] = (i + n/2 + 1) % n
+				}
+				return p
+			}
+			for _, zc := range certZoo() {
+				if zc.Class != "many-san" && zc.Class != "related-names" && zc.Class != "name" {
+					continue
+				}
+				if len(zc.Cert.DNSNames)+len(zc.Cert.IPAddresses)+len(zc.Cert.EmailAddresses)+len(zc.Cert.URIs) < 2 {
+					continue
+				}
+				base := statusVector(zc.Cert)
+				sortPerm := func(n int) []int {
+					p := make([]int, n)
+					for i := range p {
+						p[i] = i
+					}
+					if n == len(zc.Cert.DNSNames) {
+						sort.SliceStable(p, func(a, b int) bool { return zc.Cert.DNSNames[p[a]] < zc.Cert.DNSNames[p[b]] })
+					}
+					return p
+				}
+				for pi, pf := range []func(int) []int{reverse, rotate, sortPerm, randPerm} {
+					der2, n, err := permuteGeneralNames(zc.DER, oidSAN, pf)
+					if err != nil || n < 2 {
+						continue
+					}
+					c2, err := safeParseCert(der2)
+					if err != nil {
+						continue
+					}
+					c2.SelfSigned, c2.ValidationLevel = zc.Cert.SelfSigned, zc.Cert.ValidationLevel
+					sanPerms++
+					compare("san", zc.File, base, statusVector(c2), map[string]interface{}{"zoo": zc.File, "order": []string{"reversed", "rotated", "sorted", "random"}[pi], "der": hexs(zc.DER), "der_permuted": hexs(der2)})
+				}
+			}
 		}
 		for _, cc := range corpus.sampleCerts(rng, nCorp) {
 			base := statusVector(cc.Cert)
